@@ -119,7 +119,33 @@ func runC15(c *run.Ctx) {
 			}
 			c.Violation(kind, m)
 		}
-		a, err := loadSDL(sdl)
+		var a *ggql.Root
+		var err error
+		if i%4 == 2 {
+			// the schema printed is "a schema the root accepts" however it got there: here it arrives in several successive
+			// loads (members also through extend blocks), with a type and a directive sharing a name now and then
+			if i%8 == 2 && len(ms.Dirs) > 0 && ms.Type(ms.Dirs[0].Name) == nil {
+				ms.Types = append(ms.Types, &model.TypeDef{Kind: model.Object, Name: ms.Dirs[0].Name, Fields: []*model.FieldDef{{Name: "a", Type: model.Named("Int")}}})
+				if qt := ms.Type(ms.Query); qt != nil {
+					qt.Fields = append(qt.Fields, &model.FieldDef{Name: "zzSameName", Type: model.Named(ms.Dirs[0].Name)})
+				}
+				ms.Reindex()
+				sdl = ms.SDL(model.SDLOpts{BlockDesc: i%3 == 0})
+			}
+			arr := c16Arrange(c.Rand(i*13+5), ms, 3+(i/4)%3)
+			a = ggql.NewRoot(&c15Root{Query: &c15Obj{}, Mutation: &c15Obj{}, Subscription: &c15Obj{}})
+			for _, l := range arr.loads {
+				l := l
+				if err == nil {
+					if pv, _ := run.Protect(func() { err = a.ParseString(l) }); pv != nil {
+						err = fmt.Errorf("panic: %v", pv)
+					}
+				}
+			}
+			c.Count("schemas_loaded_in_several_steps", 1)
+		} else {
+			a, err = loadSDL(sdl)
+		}
 		if err != nil {
 			// acceptance of well-formed schemas is C13's subject; here it only means nothing to print
 			c.Count("generated_schema_not_accepted(left_to_C13)", 1)
@@ -135,7 +161,16 @@ func runC15(c *run.Ctx) {
 			// the loaded schema differs from what was written: not a printing issue; reported once for diagnosis
 			c.Count("loaded_schema_differs_from_model(left_to_C17)", 1)
 		}
+		sameName := false
+		for _, d := range ms.Dirs {
+			if ms.Type(d.Name) != nil {
+				sameName = true // GetType(name) answers the type; the public API has no other way to reach the directive of that name
+			}
+		}
 		for _, mode := range []string{"root", "per-type"} {
+			if mode == "per-type" && sameName {
+				continue
+			}
 			var p1 string
 			pv, _ := run.Protect(func() {
 				if mode == "root" {
